@@ -8,7 +8,7 @@ Content is a symbolic byte string of symbolic length: every byte string is cover
 """
 import z3
 from pyvc.runner import Task
-from pyvc.sym import SInt, SBool, is_sym, s_and, s_or, s_not, s_implies, QForall, SQuant
+from pyvc.sym import SInt, SBool, is_sym, s_and, s_or, s_not, s_implies, QForall, SQuant, Unsupported
 from pyvc.values import SSeq, SIter, Obj, TupObj, VBytearray
 from pyvc.interp import LoopSpec, PyRaise
 from spec import iso, modes
@@ -263,7 +263,8 @@ def task_make_segment(I, mode):
     I.summaries['segno.encoder:Buffer.getbits'] = s_getbits
     # loop contracts of the five packing loops (ordinals in source order: numeric, alphanumeric, byte, hanzi, kanji)
     loops = __import__('pyvc.extract', fromlist=['loops_of']).loops_of(f.node)
-    I.ground('C07.make_segment.has_five_packing_loops', len(loops) == 5, witness=len(loops))
+    if len(loops) != 5:
+        raise Unsupported('loop contracts do not attach: make_segment has %d loops, the contract is written for the five packing loops' % len(loops))
 
     def inv_none(ctx):
         return []
